@@ -14,7 +14,7 @@ Print Assumptions C05_fail_restores_state.
    value-passing specification (where nothing is ever rolled back because state is
    passed by value and globalStore is threaded through failures) *)
 Theorem C05_stores_refine_ref : forall c,
-  has_state (cT c) = true -> o_memoize (cO c) = false -> G_wf c -> stale_ok c -> t_leftrec (cT c) = false ->
+  state_ok c -> o_memoize (cO c) = false -> G_wf c -> stale_ok c -> t_leftrec (cT c) = false ->
   forall fuel, obs_equiv (parse c fuel) (rparse c fuel).
 Proof. exact parse_refines_rparse. Qed.
 Print Assumptions C05_stores_refine_ref.
